@@ -140,7 +140,7 @@ func (x *Exec) runBody(recv *ast.FieldList, ftype *ast.FuncType, body *ast.Block
 		replayVals[c.Params[i]] = asTerm(v).S
 	}
 	// locals and named results are visible to loop invariants by name (first definition wins)
-	ast.Inspect(body, func(n ast.Node) bool {
+	collect := func(n ast.Node) bool {
 		if _, ok := n.(*ast.FuncLit); ok {
 			return false
 		}
@@ -152,7 +152,9 @@ func (x *Exec) runBody(recv *ast.FieldList, ftype *ast.FuncType, body *ast.Block
 			}
 		}
 		return true
-	})
+	}
+	ast.Inspect(ftype, collect)
+	ast.Inspect(body, collect)
 	x.retObjs = nil
 	var resTypes []types.Type
 	if ftype.Results != nil {
@@ -171,6 +173,16 @@ func (x *Exec) runBody(recv *ast.FieldList, ftype *ast.FuncType, body *ast.Block
 	}
 	if len(c.Results) != len(resTypes) {
 		engineFail("contract %s names %d results, the function has %d", c.Key, len(c.Results), len(resTypes))
+	}
+	if c.Opts["ghost-select"] == "true" {
+		st.names["selCalled"] = boolLit(false)
+		st.names["selCases"] = intLit(0)
+		for _, imp := range x.pkg.Types.Imports() {
+			if imp.Path() == "reflect" {
+				st.names["$type:selCases"] = types.NewSlice(imp.Scope().Lookup("SelectCase").Type())
+			}
+		}
+		st.names["selChosen"] = intLit(0)
 	}
 	// preconditions
 	x.contract = true
